@@ -158,6 +158,47 @@ func discharge(obs []*Oblig, thorough bool, timeout time.Duration, workers int) 
 	}
 	close(ch)
 	wg.Wait()
+	// Second chance for queries no solver answered (a loaded machine makes the
+	// 10 s budget of the quick tier too tight now and then): all three solvers,
+	// six times the budget, few at a time. Only what is still unanswered after
+	// that is reported.
+	var again []*Oblig
+	for _, ob := range obs {
+		if st := ob.Res.Status; !ob.Trivial && st != "sat" && st != "unsat" {
+			again = append(again, ob)
+		}
+	}
+	if len(again) == 0 {
+		return
+	}
+	long := 6 * timeout
+	if long > 2*time.Minute {
+		long = 2 * time.Minute
+	}
+	w2 := workers / 4
+	if w2 < 1 {
+		w2 = 1
+	}
+	ch2 := make(chan *Oblig)
+	var wg2 sync.WaitGroup
+	for i := 0; i < w2; i++ {
+		wg2.Add(1)
+		go func() {
+			defer wg2.Done()
+			for ob := range ch2 {
+				first := ob.Res
+				r := solve(script(ob.Assume, ob.Goal, ""), true, long)
+				r.Seconds += first.Seconds
+				r.Retried = true
+				ob.Res = r
+			}
+		}()
+	}
+	for _, ob := range again {
+		ch2 <- ob
+	}
+	close(ch2)
+	wg2.Wait()
 }
 
 // Named groups queries by named obligation.
